@@ -19,7 +19,9 @@
  *   C16_x float-full  <threads> <seed> <glibc 0|1>            all 2^32 float patterns (loop variant)
  *   C16_x float-call  <threads> <seed> <first> <count>        call variant on a range of float patterns
  *   C16_x strat       <threads> <seed> <nrandom>              stratified float/double/long double sets, loop + call + constexpr
- *   C16_x single      <f|d|l> <hex bits (l: se:mantissa)>     one pattern, all variants
+ *   C16_x single      <f|d|l> <hex bits (l: se:mantissa)>     one pattern, loop + call variants
+ *   C16_x constexpr                                           constant-evaluated table only
+ * exit status: 0 ok, 1 tested code differs from the oracle, 3 the two oracles disagree.
  * output: one JSON object on stdout.
  */
 #include <atomic>
@@ -267,8 +269,14 @@ namespace {
       ++lc.cls[2][c];
       ++lc.lkinds[kindL(bits[i])];
       lc.nontrivial += 2 * (c != K_NORMAL || kindL(bits[i]) != L_NORMAL);
+      // glibc 2.36: __fpclassifyl and __isnanl treat the unsupported encodings as
+      // NaN, but __finitel only looks at the exponent and still answers "finite"
+      // for unnormals (probed).  TFEL documents isfinite as "normal, subnormal or
+      // zero, but not infinite or NaN", i.e. derived from the class, which is what
+      // the oracle demands; __finitel is therefore not consulted for unnormals.
+      const bool fin = kindL(bits[i]) == L_UNNORMAL ? false : g_finl(x[i]) != 0;
       const unsigned b = static_cast<unsigned>(g_clsl(x[i])) | ((g_nanl(x[i]) ? 1u : 0u) << 4) |
-                         ((g_finl(x[i]) ? 1u : 0u) << 5);
+                         ((fin ? 1u : 0u) << 5);
       if (b != exp[i]) rep.oracle("long double", hexL(bits[i]), exp[i], b);
     }
     c16_loop_l(x, n, got);
